@@ -21,10 +21,10 @@ def tla_set(xs):
 # Access family: C03 (pair-verify machine + session switch) and C01 (gating layer)
 # =====================================================================================================
 
-ACCESS_FINISH = ["genuine", "wrongkey", "stale", "reordered", "replayed", "unknown", "self", "reflect", "badseal", "short", "badtlv"]
+ACCESS_FINISH = ["genuine", "wrongkey", "stale", "reordered", "replayed", "unknown", "self", "reflect", "crossname", "badseal", "short", "badtlv"]
 ACCESS_OPS = ["GetAcc", "GetChar", "PutVal", "PutSub", "Resource", "AddPair", "RemPair"]
 ACCESS_NOISE = ["psstart", "pswrong", "pszero"]
-ACCESS_GUARDS = ["session_installed_only_without_error", "signature_checked", "authenticate_checks_verified",
+ACCESS_GUARDS = ["key_looked_up_per_finish", "session_installed_only_without_error", "signature_checked", "authenticate_checks_verified",
                  "authenticate_returns_after_refusal", "pairings_behind_auth", "resource_behind_auth"]
 ACCESS_RULES = {"VerifiedRule": "C03", "ErrorRule": "C03", "PlainStaysPlain": "C03",
                 "GateRule": "C01", "RefusalChangesNothing": "C01", "OnlyVerifiedGetEvents": "C01", "NoCarryOver": "C01"}
@@ -49,7 +49,7 @@ CHECK_DEADLOCK FALSE
 def access_slices(prop):
     if prop == 'C03':
         return dict(finish=ACCESS_FINISH, lens=["ok", "short", "long", "empty"], ops=["GetAcc"], noise=[])
-    return dict(finish=["genuine", "wrongkey", "self", "reflect"], lens=["ok"], ops=ACCESS_OPS, noise=ACCESS_NOISE)
+    return dict(finish=["genuine", "wrongkey", "self", "reflect", "crossname"], lens=["ok"], ops=ACCESS_OPS, noise=ACCESS_NOISE)
 
 
 def access_generate(run):
@@ -168,10 +168,10 @@ def access_family(run, replay=None):
 # =====================================================================================================
 
 PS_ALL = dict(AVals=["good", "zero", "N", "missing", "replay"], Proofs=["right", "wrong", "missing", "nilkey"], Seals=["this", "other", "zero", "random", "nilkey"],
-              Bodies=["genuine", "badsig", "mismatch", "badtlv"], Shapes=["ok", "tagflip", "ctflip", "short", "empty"])
+              Bodies=["genuine", "badsig", "mismatch", "badtlv", "smallorder"], Shapes=["ok", "tagflip", "ctflip", "short", "empty"])
 PS_CORE = dict(AVals=["good", "zero", "replay"], Proofs=["right", "wrong"], Seals=["this", "zero", "other"],
                Bodies=["genuine", "badsig"], Shapes=["ok", "tagflip", "short"])
-PS_GUARDS = ["bad_A_stops_exchange", "verify_bad_A_resets", "step_checked_before_kex", "signature_checked", "aead_checked"]
+PS_GUARDS = ["wrong_proof_resets", "bad_A_stops_exchange", "verify_bad_A_resets", "step_checked_before_kex", "signature_checked", "aead_checked"]
 
 
 def ps_cfg(conn, ident, sl, weak=(), tail='', consts=''):
@@ -364,6 +364,7 @@ CORRUPTIONS = {
     'lifecycle': [('sf not following the pairings', _corrupt(lambda x: x.get('running') and x.get('a') == 'pair' and x.get('ok'), lambda x: x.update(sf=1)), 'SfRule'),
                   ('a new device id after a restart', _corrupt(lambda x: x.get('a') == 'start' and x.get('i', 0) > 0 and not x.get('skipped'), lambda x: x.update(id='00:00:00:00:00:00')), 'IdentityStable')],
     'connwrite': [],
+    'responses': [('a damaged response recorded', _corrupt(lambda x: x.get('a') == 'Receive' and x.get('ok'), lambda x: x.update(ok=False)), 'OwnResponse')],
     'e2e': [('a refused request recorded as served', _corrupt(lambda x: x.get('ev') == 'step' and x.get('a') in ('Read', 'Write', 'Sub') and x.get('res') == 'refused', lambda x: x.update(res='ok')), 'E2E-Gate'),
             ('a refused verification recorded as accepted', _corrupt(lambda x: x.get('ev') == 'step' and x.get('a') == 'Verify' and x.get('res') == 'refused', lambda x: x.update(res='ok')), 'E2E-Verify'),
             ('an EVENT on an unverified connection', _corrupt(lambda x: x.get('ev') == 'step' and x.get('a') == 'Read' and x.get('res') == 'refused' and x.get('running'), lambda x: x.update(got=[x['k']])), 'E2E-Leak'),
@@ -500,6 +501,7 @@ def notify_family(run, replay=None):
     def extra(lines, behs):
         return dict(events_observed=sum(len(x.get('got', [])) for x in lines if x.get('ev') == 'act'),
                     racing_close_steps=sum(1 for x in lines if x.get('a') == 'LocalRace' and not x.get('skipped')),
+                    getter_reads=sum(1 for x in lines if x.get('a') == 'Getter' and not x.get('skipped')), events_after_getter_reads=sum(len(x.get('got', [])) for x in lines if x.get('a') == 'Getter'),
                     steps_skipped_drift=sum(1 for x in lines if x.get('skipped')))
     return generic_family(run, replay, hcv='notify', trace_mod='NotifyTrace', gen=notify_gen,
                           rules={'ExactlyOnce': 'C10', 'NoAppPanic': 'C10', 'FenceAnswered': 'C10'}, level='model_checking',
@@ -507,7 +509,7 @@ def notify_family(run, replay=None):
                                        'EVENTs are attributed to an action by fencing every open connection with its own request/response after the action (events are written synchronously by hc before the causing call returns)',
                                        'a closed connection cannot be observed receiving anything: observed white-box as "the context holds no session for it" and black-box as "a reconnect starts without subscriptions"',
                                        'ProgrammableSwitchEvent (event per press by contract) is outside the same-value alphabet'],
-                          rule_text='TLC-generated histories of connect / close / subscribe / unsubscribe / local set / remote write / local set racing a close over 3 connections and 3 characteristics on 2 accessories (edge mode, words, attack words per named guard, simulation); distinct = canonical abstract word; non-trivial = the design spec expects at least one EVENT in it',
+                          rule_text='TLC-generated histories of connect / close / subscribe / unsubscribe / local set / remote write / read answered by an application getter / local set racing a close over 3 connections and 3 characteristics on 2 accessories (edge mode, words, attack words per named guard, simulation); distinct = canonical abstract word; non-trivial = the design spec expects at least one EVENT in it',
                           nontrivial=lambda b: any(sum(s.get('exp', {}).values()) > 0 for s in b['steps']),
                           sanity=sanity, extra_cov=extra)
 
@@ -1139,7 +1141,11 @@ def honest_family(run, replay=None):
                 runs.append([dict(code='right', mode='pipelined', nreq=1)])
             else:
                 runs.append([dict(code='right', mode='patient', nreq=1 + i % 4)])
-        return [('run', runs)], dict(runs=n, inputs='sampled by seed: setup code, controller identifier (1..64 bytes UTF-8 incl. the 36-character form), Ed25519 / X25519 keys, accessory identity, pre-existing pairings, request sizes 1 frame .. ~30 frames, attribute databases of 1 and 61 accessories')
+        # the hand-over from plaintext to the encrypted session is a race with net/http's background read (D14, D16): many
+        # handshakes whose first encrypted request follows M4 at once
+        nimm = 600 if thorough else 200
+        runs += [[dict(code='right', mode='immediate', nreq=1)] for _ in range(nimm)]
+        return [('run', runs)], dict(runs=n + nimm, immediate_first_requests=nimm + n // 9, inputs='sampled by seed: setup code, controller identifier (1..64 bytes UTF-8 incl. the 36-character form), Ed25519 / X25519 keys, accessory identity, pre-existing pairings, request sizes 1 frame .. ~30 frames, attribute databases of 1 and 61 accessories')
 
     def sanity(lines, behs):
         ok = sum(1 for x in lines if x.get('name') == 'resp' and x.get('framed') == 'enc' and x.get('bodyok'))
@@ -1371,42 +1377,104 @@ def e2e_family(run, replay=None):
                           nontrivial=lambda b: len(set(s.get('a') for s in b['steps'])) >= 3, sanity=sanity, extra_cov=extra)
 
 
-def with_e2e(base):
-    """The property's own family, then the end-to-end composition stage; one verdict, one evidence file."""
+def with_stage(base, stage, tag, part):
+    """The property's own family, then a further stage (another specification bound to the code); one verdict, one evidence file."""
     def fam(run, replay=None):
         if replay:
-            return e2e_family(run, replay=replay) if replay.get('family') == 'e2e' else base(run, replay=replay)
-        if os.environ.get('VERIF_STAGE') == 'e2e':      # development aid: the end-to-end stage alone
-            return e2e_family(run)
+            return stage(run, replay=replay) if replay.get('family') == tag else base(run, replay=replay)
+        if os.environ.get('VERIF_STAGE') == tag:      # development aid: that stage alone
+            return stage(run)
         rc1 = base(run)
         epath = os.path.join(ROOT, 'evidence', '%s.json' % run.prop)
         ev1 = json.load(open(epath))
         run.mc = []
         notes, run.notes = run.notes, []
         try:
-            rc2 = e2e_family(run)
+            rc2 = stage(run)
         except ToolTrouble as e:
             if rc1 != 1:
                 raise
-            log('  end-to-end stage inconclusive on a tree that already violates the property: %s' % str(e)[:200])
+            log('  %s stage inconclusive on a tree that already violates the property: %s' % (tag, str(e)[:200]))
             with open(epath, 'w') as f:       # the first stage's evidence stands
                 json.dump(ev1, f, indent=1)
             return rc1
         ev2 = json.load(open(epath))
         c1, c2 = ev1['coverage'], ev2['coverage']
-        c1['end_to_end_part'] = {k: v for k, v in c2.items() if k not in ('samples',)}
+        c1[part] = {k: v for k, v in c2.items() if k not in ('samples',)}
         for k in ('states', 'transitions', 'traces_validated_against_impl', 'evaluations', 'trace_lines'):
             if isinstance(c1.get(k), (int, float)) and isinstance(c2.get(k), (int, float)):
                 c1[k] += c2[k]
-        ev1['assumptions'] = list(ev1.get('assumptions', [])) + ['end-to-end stage: ' + a for a in ev2.get('assumptions', [])[:1]]
+        ev1['assumptions'] = list(ev1.get('assumptions', [])) + [tag + ' stage: ' + a for a in ev2.get('assumptions', [])[:1]]
         ev1['violations'] = ev1.get('violations', 0) + ev2.get('violations', 0)
         ev1['wall_s'] = round(time.time() - run.t0, 2)
         with open(epath, 'w') as f:
             json.dump(ev1, f, indent=1)
         return max(rc1, rc2)
-    fam.__name__ = base.__name__ + '_with_e2e'
+    fam.__name__ = base.__name__ + '_with_' + tag
     return fam
+
+
+# =====================================================================================================
+# Responses in flight to several controllers (Responses.tla): a further stage of C09
+# =====================================================================================================
+
+def responses_gen(run):
+    thorough = run.tier == 'thorough'
+    run.model_check('Responses', 'Responses_MC.cfg', workers=2)
+    t = 'INIT GInit\nNEXT GNext\n'
+    words = run.generate('ResponsesGen', cfgtext='CONSTANTS\n  Ctrl = {"c1", "c2", "c3"}\n  Weak = {}\n  MaxLen = 6\n' + t + 'INVARIANT EmitWord\nCONSTRAINT WordBound\nCHECK_DEADLOCK FALSE\n')
+    words = [json.loads(x) for x in sorted(set(json.dumps(w) for w in words))]
+
+    def overlapping(w):       # some response is served while another one is still in flight
+        out = set()
+        for s in w:
+            if s['a'] == 'Send':
+                if out:
+                    return True
+                out.add(s['c'])
+            else:
+                out.discard(s['c'])
+        return False
+    nall = len(words)
+    words = [w for w in words if overlapping(w)]
+    nover = len(words)
+    words = sample(words, 300 if thorough else 36, run.seed)
+    a = run.generate('ResponsesGen', cfgtext='CONSTANTS\n  Ctrl = {"c1", "c2"}\n  Weak = {"buffer_owned_until_written"}\n  MaxLen = 6\n' + t + 'INVARIANT NoAttack\nVIEW AttackView\nCHECK_DEADLOCK FALSE\n', expect_violation=True)
+    if not a:
+        raise ToolTrouble('no attack word for guard buffer_owned_until_written')
+    # the attack word ends where the model breaks; close the outstanding requests so that the word is complete
+    aw = a[0]
+    out = []
+    for s in aw:
+        if s['a'] == 'Send':
+            out.append(s['c'])
+        elif s['c'] in out:
+            out.remove(s['c'])
+    aw = aw + [dict(a='Receive', c=c, k='none') for c in out]
+    return [('word', words), ('attack:buffer_owned_until_written', [aw])], dict(words_enumerated=nall, words_with_overlap=nover, words_replayed=len(words), word_len=6, attack_words=1)
+
+
+def responses_family(run, replay=None):
+    def sanity(lines, behs):
+        big = [x for x in lines if x.get('a') == 'Receive' and x.get('n', 0) > 4000000]
+        if not big:
+            raise ToolTrouble('vacuous run: no response large enough to block the server in the middle was received')
+
+    def extra(lines, behs):
+        rec = [x for x in lines if x.get('a') == 'Receive']
+        return dict(responses_received=len(rec), bytes_received=sum(x.get('n', 0) for x in rec), passes='1 processor, then all processors')
+    return generic_family(run, replay, hcv='responses', trace_mod='ResponsesTrace', gen=responses_gen, rules={'OwnResponse': 'C09'}, level='model_checking',
+                          assumptions=['three pair-verified reference controllers on real ip transports (six in one process) with attribute databases of 81 accessories; both kinds of response are about 5 MB, more than the kernel lets the server get rid of while the controller does not read (receive window of 4 KB from the handshake on, send buffer growing to 4 MB), so a controller that has sent its request and does not read keeps the server in the middle of the response',
+                                       'every word is executed twice: with one processor (whatever a parked handler left in per-processor state is found by the next handler) and with all processors',
+                                       'hc serialises GET /accessories on the server mutex while the response is written; the model therefore has at most one /accessories response in flight (named behaviour, no listed property speaks about it)'],
+                          rule_text='all complete words of length 6 over Send / Receive of three controllers and two kinds of response (Responses.tla) in which some response is served while another is in flight, sampled by seed, plus the attack word of the guard buffer_owned_until_written; distinct = abstract word; non-trivial = all of them',
+                          nontrivial=lambda b: True, sanity=sanity, extra_cov=extra)
+
+
+def with_e2e(base):
+    return with_stage(base, e2e_family, 'e2e', 'end_to_end_part')
 
 
 for _p in ('C01', 'C03', 'C10', 'C20'):
     REGISTRY[_p] = with_e2e(REGISTRY[_p])
+REGISTRY['C09'] = with_stage(REGISTRY['C09'], responses_family, 'responses', 'concurrent_responses_part')
